@@ -1,7 +1,924 @@
-//! C17 — not built yet.
-use crate::report::Tier;
+//! C17 — parallel, push-based and spilling execution equal sequential execution.
+//!
+//! One logical pipeline (chain of 1–4 operators) and one input table are evaluated by a plain
+//! Vec-based reference (`c17_ref.rs`) and by every execution configuration the crate offers
+//! (`c17_run.rs`): pull `Operator` tree, push `Pipeline`, pull prefix + push suffix through
+//! `OperatorSource`, `ParallelPipeline` (workers 1..16, every pressure level = morsel size, several
+//! chunk sizes) merged with the crate's own merge functions, spillable sort / aggregate push
+//! operators, `ExternalSort`, `PartitionedState`. Outputs are compared as multisets (sortedness +
+//! multiset for sorts; count + inclusion where row identity is undefined). Every failing case is
+//! shrunk (operators, operator parameters, rows, columns) and the signature is built from the
+//! shrunk witness: configuration class | operator skeleton | mismatch kind.
 
-pub fn run(_tier: Tier, _seed: u64) -> ! {
-    println!("INCONCLUSIVE property=C17 reason=monitor not built yet");
-    std::process::exit(2)
+#[path = "c17_ref.rs"]
+mod refm;
+#[path = "c17_run.rs"]
+mod runm;
+#[path = "c17_direct.rs"]
+mod direct;
+
+use crate::report::{Report, Tier};
+use crate::rng::{Rng, hash_str};
+use crate::util::catch;
+use crate::vals;
+use grafeo_common::types::Value;
+use refm::*;
+use runm::*;
+use serde_json::{Value as J, json};
+use std::collections::HashMap;
+
+// ---------------------------------------------------------------------------------------------
+// events (cases are judged on several harness threads; events are merged in case order)
+// ---------------------------------------------------------------------------------------------
+
+pub enum Ev {
+    Eval(u64),
+    Nontrivial(u64),
+    Count(String, u64),
+    Dev(String, J),
+    Sample(J),
+    Inconclusive(String),
+}
+
+#[derive(Default)]
+pub struct Ctx {
+    pub ev: Vec<Ev>,
+    pub reduce_budget: usize,
+}
+
+impl Ctx {
+    pub fn count(&mut self, k: &str, n: u64) {
+        self.ev.push(Ev::Count(k.to_string(), n));
+    }
+    pub fn eval(&mut self) {
+        self.ev.push(Ev::Eval(1));
+    }
+    pub fn dev(&mut self, sig: &str, d: J) {
+        self.ev.push(Ev::Dev(sig.to_string(), d));
+    }
+}
+
+// ---------------------------------------------------------------------------------------------
+// judging one (table, chain, configuration)
+// ---------------------------------------------------------------------------------------------
+
+#[derive(Clone)]
+pub struct Case {
+    pub table: Table,
+    pub chain: Vec<Op>,
+    pub cfg: Cfg,
+}
+
+#[derive(Clone, Debug)]
+pub struct Mis {
+    /// coarse category used while shrinking: rows / error / panic@site / hang / spill
+    pub cat: String,
+    /// full mismatch kind (goes into the signature)
+    pub kind: String,
+    pub detail: J,
+}
+
+/// Run the case once per repetition; first mismatch wins. `None` = all repetitions agreed.
+pub fn judge(case: &Case, stats: Option<&mut Ctx>) -> Option<Mis> {
+    judge_reps(case, stats, usize::MAX)
+}
+
+pub fn judge_reps(case: &Case, stats: Option<&mut Ctx>, max_reps: usize) -> Option<Mis> {
+    let plan = case.cfg.plan(&case.chain);
+    let Some(plan) = plan else { return None };
+    let r = ref_eval(&case.table.rows, &case.chain[..plan.len], plan.unordered_from);
+    let used = r.used;
+    let chain = &case.chain[..used];
+    let reps = case.cfg.reps().min(max_reps);
+    let mut orders = std::collections::HashSet::new();
+    let mut out_mis = None;
+    let mut info = 0u64;
+    for _ in 0..reps {
+        let res = run_cfg(&case.cfg, &case.table, chain);
+        let mis = match res {
+            Outcome::Rows { rows, order_hash, leftover } => {
+                orders.insert(order_hash);
+                info = order_hash;
+                if let Some(files) = leftover {
+                    Some(Mis {
+                        cat: "spill".into(),
+                        kind: "spill_files_left".into(),
+                        detail: json!({"files": files}),
+                    })
+                } else {
+                    compare(&rows, &r).map(|(kind, detail)| Mis { cat: "rows".into(), kind, detail })
+                }
+            }
+            Outcome::Error(e) => Some(Mis { cat: "error".into(), kind: format!("error:{}", err_class(&e)), detail: json!({"error": e}) }),
+            Outcome::Panic(p) => Some(Mis {
+                cat: format!("panic@{}", panic_file(&p.site)),
+                kind: format!("panic@{}", panic_file(&p.site)),
+                detail: json!({"at": p.at, "msg": p.msg}),
+            }),
+            Outcome::Hang(w) => Some(Mis { cat: "hang".into(), kind: "no_termination".into(), detail: json!({"where": w}) }),
+            Outcome::NotApplicable => return None,
+        };
+        if mis.is_some() {
+            out_mis = mis;
+            break;
+        }
+    }
+    if let Some(c) = stats {
+        c.count(&format!("runs.{}", case.cfg.variant()), reps as u64);
+        match &case.cfg {
+            Cfg::Par { workers, pressure, chunk, .. } => {
+                c.count("par.distinct_output_chunk_orders_seen", orders.len() as u64);
+                c.count(&format!("par.workers.{workers:02}"), 1);
+                c.count(&format!("par.morsel_size.{}", [65536, 32768, 16384, 1024][*pressure as usize & 3]), 1);
+                c.count(&format!("par.chunk_size.{chunk}"), 1);
+            }
+            Cfg::SpillSort { threshold, .. } | Cfg::SpillAgg { threshold, .. } => {
+                c.count(&format!("{}.spill_files_created", case.cfg.variant()), info);
+                c.count(&format!("{}.cases_that_spilled", case.cfg.variant()), u64::from(info > 0));
+                c.count(
+                    &format!("{}.threshold.{}", case.cfg.variant(), match *threshold { 0 | 1 => "always", usize::MAX => "never", _ => "some" }),
+                    1,
+                );
+            }
+            _ => {}
+        }
+    }
+    out_mis
+}
+
+/// Source file of a panic site (the function-name part of `util::Panic::site` is not always resolvable
+/// under load; the file is).
+pub fn panic_file(site: &str) -> String {
+    match site.find(".rs") {
+        Some(p) => site[..p + 3].to_string(),
+        None => site.to_string(),
+    }
+}
+
+fn err_class(e: &str) -> String {
+    // strip numbers so the class is stable
+    let s: String = e.chars().map(|c| if c.is_ascii_digit() { '#' } else { c }).collect();
+    let mut out = String::new();
+    let mut last_hash = false;
+    for c in s.chars() {
+        if c == '#' {
+            if !last_hash {
+                out.push('#');
+            }
+            last_hash = true;
+        } else {
+            last_hash = false;
+            out.push(c);
+        }
+    }
+    out.chars().take(60).collect()
+}
+
+// ---------------------------------------------------------------------------------------------
+// shrinking
+// ---------------------------------------------------------------------------------------------
+
+/// Shrink budget is counted in row-units: a judge call costs the table size (at least 2500), so a
+/// budget of 1000 allows few calls on a 100000-row table and up to 1000 on small ones.
+const UNIT: usize = 2500;
+
+fn still_fails_p(case: &Case, cat: &str, pinned: Option<&str>, budget: &mut usize) -> Option<Mis> {
+    let cost = case.table.rows.len().div_ceil(UNIT).max(1) * if matches!(case.cfg, Cfg::Par { .. }) { 2 } else { 1 };
+    if *budget < cost {
+        *budget = 0;
+        return None;
+    }
+    *budget -= cost;
+    if !chain_valid(&case.table.kinds, &case.chain) {
+        return None;
+    }
+    let m = judge_reps(case, None, 2)?;
+    if m.cat != cat {
+        return None;
+    }
+    // a named cell change (e.g. int->float) is a finer identification than "rows differ": once reached,
+    // do not trade it for a different one
+    if let Some(k) = pinned {
+        if m.kind != k {
+            return None;
+        }
+    }
+    Some(m)
+}
+
+fn identity_project(width: usize) -> Op {
+    Op::Project((0..width).map(PItem::Col).collect())
+}
+
+struct Shrinker {
+    case: Case,
+    mis: Mis,
+    cat: String,
+    budget: usize,
+    progress: bool,
+}
+
+impl Shrinker {
+    fn attempt(&mut self, c: Case) -> bool {
+        self.attempt_x(c, true)
+    }
+    /// `pin`: keep a named cell change once reached (not applied when operators are removed: a shorter
+    /// chain is always the better witness)
+    fn attempt_x(&mut self, c: Case, pin: bool) -> bool {
+        let pinned = if pin && self.mis.kind.starts_with("cell:") { Some(self.mis.kind.clone()) } else { None };
+        match still_fails_p(&c, &self.cat, pinned.as_deref(), &mut self.budget) {
+            Some(m) => {
+                self.case = c;
+                self.mis = m;
+                self.progress = true;
+                true
+            }
+            None => false,
+        }
+    }
+}
+
+/// Shrink a failing case: configuration first (towards the plain push / pull engines and default
+/// settings), then table size shortcuts, operators (drop, inline projections, replace by the identity
+/// projection, simplify parameters), rows, columns; repeated to a fixpoint or until the budget of
+/// judge calls is spent.
+pub fn shrink(case: Case, mis: Mis, budget: usize) -> (Case, Mis) {
+    let cat = mis.cat.clone();
+    let mut s = Shrinker { case, mis, cat, budget, progress: true };
+    while s.progress && s.budget > 0 {
+        s.progress = false;
+        // 0. configuration
+        loop {
+            let mut improved = false;
+            for alt in s.case.cfg.simpler() {
+                let mut c = s.case.clone();
+                c.cfg = alt;
+                if s.attempt_x(c, false) {
+                    improved = true;
+                    break;
+                }
+            }
+            if !improved {
+                break;
+            }
+        }
+        // 1. table size shortcuts (before anything expensive)
+        for cut in [0usize, 1, 2, 8, 64, 2049, 4097] {
+            if s.case.table.rows.len() > cut * 2 + 8 {
+                let mut c = s.case.clone();
+                c.table.rows.truncate(cut);
+                if s.attempt(c) {
+                    break;
+                }
+            }
+        }
+        // 2. drop operators (a projection is inlined into its successors when they refer to it)
+        let mut i = 0;
+        while i < s.case.chain.len() {
+            let mut c = s.case.clone();
+            c.chain.remove(i);
+            c.cfg = c.cfg.on_remove_op(i);
+            if s.attempt_x(c, false) {
+                continue;
+            }
+            if let Some(ch) = inline_project(&s.case.chain, i) {
+                let mut c = s.case.clone();
+                c.chain = ch;
+                c.cfg = c.cfg.on_remove_op(i);
+                if s.attempt_x(c, false) {
+                    continue;
+                }
+            }
+            i += 1;
+        }
+        // 2b. materialise a prefix of the chain with the reference and keep only the suffix
+        {
+            let mut k = s.case.chain.len();
+            while k >= 1 {
+                if k < s.case.chain.len() {
+                    let r = ref_eval(&s.case.table.rows, &s.case.chain[..k], None);
+                    if r.used == k && r.approx.is_none() {
+                        let mut kinds = s.case.table.kinds.clone();
+                        let mut ok = true;
+                        for op in &s.case.chain[..k] {
+                            match apply_schema(&kinds, op) {
+                                Some(k2) => kinds = k2,
+                                None => ok = false,
+                            }
+                        }
+                        if ok {
+                            let mut cfg = s.case.cfg.clone();
+                            for _ in 0..k {
+                                cfg = cfg.on_remove_op(0);
+                            }
+                            let c = Case { table: Table { kinds, rows: r.rows }, chain: s.case.chain[k..].to_vec(), cfg };
+                            if s.attempt_x(c, false) {
+                                break;
+                            }
+                        }
+                    }
+                }
+                k -= 1;
+            }
+        }
+        // 3. replace operators by the identity projection (canonical "some operator here")
+        {
+            let mut kinds = s.case.table.kinds.clone();
+            for i in 0..s.case.chain.len() {
+                let idp = identity_project(kinds.len());
+                let next_kinds = apply_schema(&kinds, &s.case.chain[i]).unwrap_or_else(|| kinds.clone());
+                if format!("{:?}", s.case.chain[i]) != format!("{idp:?}") {
+                    let mut c = s.case.clone();
+                    c.chain[i] = idp;
+                    if s.attempt_x(c, false) {
+                        continue; // schema unchanged by the identity
+                    }
+                }
+                kinds = next_kinds;
+            }
+        }
+        // 4. replace a column's values by the row number (distinct ints): removes value kinds that do not
+        // matter for the failure
+        for c in 0..s.case.table.kinds.len() {
+            let already = s.case.table.kinds[c] == Kind::Int
+                && s.case.table.rows.iter().enumerate().all(|(i, r)| matches!(r[c], Value::Int64(x) if x == i as i64));
+            if already || s.case.table.rows.is_empty() {
+                continue;
+            }
+            let mut cse = s.case.clone();
+            cse.table.kinds[c] = Kind::Int;
+            for (i, r) in cse.table.rows.iter_mut().enumerate() {
+                r[c] = Value::Int64(i as i64);
+            }
+            s.attempt(cse);
+        }
+        // 5. columns
+        let mut c_idx = 0;
+        while c_idx < s.case.table.kinds.len() && s.case.table.kinds.len() > 1 {
+            if let Some((t, ch)) = drop_column(&s.case.table, &s.case.chain, c_idx) {
+                let c = Case { table: t, chain: ch, cfg: s.case.cfg.clone() };
+                if s.attempt(c) {
+                    continue;
+                }
+            }
+            c_idx += 1;
+        }
+        // 6. simplify operator parameters
+        for i in 0..s.case.chain.len() {
+            loop {
+                let mut improved = false;
+                for alt in s.case.chain[i].simpler() {
+                    let mut c = s.case.clone();
+                    c.chain[i] = alt;
+                    if s.attempt_x(c, false) {
+                        improved = true;
+                        break;
+                    }
+                }
+                if !improved {
+                    break;
+                }
+            }
+        }
+        // 7. rows: shortest failing prefix, then longest droppable front (bisection), then single rows
+        {
+            let n = s.case.table.rows.len();
+            let (mut lo, mut hi) = (0usize, n); // prefix(hi) fails (hi == n is the current case)
+            while hi - lo > 1 && s.budget > 0 {
+                let mid = lo + (hi - lo) / 2;
+                let mut c = s.case.clone();
+                c.table.rows.truncate(mid);
+                if s.attempt(c) {
+                    hi = mid;
+                } else {
+                    lo = mid;
+                }
+            }
+            let base = s.case.clone();
+            let n = base.table.rows.len();
+            let (mut lo, mut hi) = (0usize, n); // dropping the first `lo` rows of `base` still fails
+            while hi - lo > 1 && s.budget > 0 {
+                let mid = lo + (hi - lo) / 2;
+                let mut c = base.clone();
+                c.table.rows.drain(..mid);
+                if s.attempt(c) {
+                    lo = mid;
+                } else {
+                    hi = mid;
+                }
+            }
+            if s.case.table.rows.len() <= 64 {
+                let mut i = 0;
+                while i < s.case.table.rows.len() && s.budget > 0 {
+                    let mut c = s.case.clone();
+                    c.table.rows.remove(i);
+                    if !s.attempt(c) {
+                        i += 1;
+                    }
+                }
+            }
+        }
+    }
+    (s.case, s.mis)
+}
+
+fn rows_class(n: usize) -> &'static str {
+    match n {
+        0 => "rows:0",
+        1..=65535 => "rows<65536",
+        _ => "rows>=65536",
+    }
+}
+
+pub fn signature(case: &Case, mis: &Mis) -> String {
+    let used = {
+        let plan = case.cfg.plan(&case.chain);
+        match plan {
+            Some(p) => ref_eval(&case.table.rows, &case.chain[..p.len], p.unordered_from).used,
+            None => case.chain.len(),
+        }
+    };
+    let mut sk = skeleton(&case.table.kinds, &case.chain[..used.min(case.chain.len())]);
+    if case.cfg.variant() == "par" {
+        // failures that need the parallel configuration and involve distinct sit in the merge of the
+        // per-worker sets (per-worker failures shrink to the push engine); which column kinds collide
+        // there depends on the data
+        let mut out = String::new();
+        let mut rest = sk.as_str();
+        while let Some(p) = rest.find("distinct[") {
+            out.push_str(&rest[..p + "distinct".len()]);
+            rest = &rest[p + "distinct".len()..];
+            if let Some(q) = rest.find(']') {
+                rest = &rest[q + 1..];
+            }
+        }
+        out.push_str(rest);
+        sk = out;
+    }
+    format!("{}|{}|{}|{}", case.cfg.class(), sk, mis.kind, rows_class(case.table.rows.len()))
+}
+
+fn witness_json(case: &Case, mis: &Mis) -> J {
+    let rows: Vec<J> = case.table.rows.iter().take(12).map(|r| json!(r.iter().map(vals::key).collect::<Vec<_>>())).collect();
+    json!({
+        "config": format!("{:?}", case.cfg),
+        "chain": case.chain.iter().map(|o| format!("{o:?}")).collect::<Vec<_>>(),
+        "column_kinds": format!("{:?}", case.table.kinds),
+        "n_rows": case.table.rows.len(),
+        "rows_first12_exact_keys": rows,
+        "mismatch": mis.kind,
+        "detail": mis.detail,
+    })
+}
+
+fn shrink_cache() -> &'static std::sync::Mutex<HashMap<String, Vec<String>>> {
+    static C: std::sync::OnceLock<std::sync::Mutex<HashMap<String, Vec<String>>>> = std::sync::OnceLock::new();
+    C.get_or_init(|| std::sync::Mutex::new(HashMap::new()))
+}
+
+/// Judge, and on failure shrink and report.
+pub fn check_case(ctx: &mut Ctx, case: Case) {
+    ctx.eval();
+    let Some(mis) = judge(&case, Some(ctx)) else { return };
+    // the same raw failure (full configuration class, full skeleton, category, size class) is shrunk once
+    let raw = format!("{}|{}|{}|{}", case.cfg.class(), skeleton(&case.table.kinds, &case.chain), mis.cat, rows_class(case.table.rows.len()));
+    let seen = shrink_cache().lock().unwrap().get(&raw).cloned().unwrap_or_default();
+    if !seen.is_empty() {
+        ctx.count("failures.reused_signature", 1);
+        ctx.dev(&seen[0], json!({"unshrunk": witness_json(&case, &mis)}));
+        return;
+    }
+    ctx.count("failures.shrunk", 1);
+    let budget = ctx.reduce_budget;
+    let t0 = std::time::Instant::now();
+    let (small, m2) = shrink(case, mis, budget);
+    ctx.count("failures.shrink_ms", t0.elapsed().as_millis() as u64);
+    let sig = signature(&small, &m2);
+    shrink_cache().lock().unwrap().entry(raw).or_default().push(sig.clone());
+    ctx.dev(&sig, witness_json(&small, &m2));
+}
+
+// ---------------------------------------------------------------------------------------------
+// workload
+// ---------------------------------------------------------------------------------------------
+
+fn table_sizes(tier: Tier) -> Vec<usize> {
+    // sizes around 0, 1, chunk (2048) and morsel (1024 / 16384 / 32768 / 65536) boundaries, 10^5
+    let mut v = vec![0, 1, 2, 3, 2047, 2048, 2049, 1023, 1024, 1025, 4096, 4097];
+    v.extend(tier.pick(vec![16385, 65535, 65536, 65537, 100_000], vec![
+        16383, 16384, 16385, 32767, 32768, 32769, 65535, 65536, 65537, 100_000, 131_073,
+    ]));
+    v
+}
+
+fn random_cfgs(rng: &mut Rng, tier: Tier, n: usize, chain: &[Op]) -> Vec<Cfg> {
+    let reps = tier.pick(5, 50);
+    let mut v = Vec::new();
+    let chunk_sizes = [1usize, 7, 1024, 2048, 4096];
+    let pick_chunk = |rng: &mut Rng, n: usize| -> usize {
+        loop {
+            let c = *rng.pick(&chunk_sizes);
+            // tiny chunks only over small tables (every chunk allocates 2048-slot vectors in the crate)
+            if (c == 1 && n <= 300) || (c == 7 && n <= 3000) || c >= 1024 {
+                return c;
+            }
+        }
+    };
+    // pull
+    v.push(Cfg::Pull { typed: false, chunk: pick_chunk(rng, n), simple_agg: rng.chance(0.5), adaptive: false });
+    if rng.chance(0.15) {
+        v.push(Cfg::Pull { typed: true, chunk: 2048, simple_agg: false, adaptive: false });
+    }
+    if rng.chance(0.3) {
+        v.push(Cfg::Pull { typed: false, chunk: pick_chunk(rng, n), simple_agg: false, adaptive: true });
+    }
+    // push
+    let src = match rng.below(3) {
+        0 => PushSrc::Vector,
+        1 => PushSrc::Chunks(pick_chunk(rng, n)),
+        _ => PushSrc::Ragged(rng.next_u64()),
+    };
+    v.push(Cfg::Push { src, mat_distinct: rng.chance(0.3), tracked: rng.chance(0.3) });
+    // pull prefix + push suffix
+    if chain.len() >= 2 && rng.chance(0.5) {
+        v.push(Cfg::Mixed { split: 1 + rng.below(chain.len() - 1), chunk: pick_chunk(rng, n) });
+    }
+    // parallel: two random points of workers x pressure x chunk size
+    for _ in 0..2 {
+        let big = n > 20_000;
+        // every parallel configuration is repeated: 5x (quick) / 50x (thorough) on small tables, fewer on
+        // larger ones to stay inside the time budget
+        let reps_here = if big { reps.min(tier.pick(2, 5)) } else if n > 3000 { reps.min(10) } else if n > 300 { reps.min(20) } else { reps };
+        v.push(Cfg::Par {
+            workers: 1 + rng.below(16),
+            pressure: rng.below(4) as u8,
+            chunk: {
+                let c = pick_chunk(rng, n);
+                if c == 4096 { 2048 } else { c }
+            },
+            chunk_src: if rng.chance(0.4) { Some(rng.next_u64() | 1) } else { None },
+            merge_rows: rng.chance(0.5),
+            reps: reps_here,
+        });
+    }
+    // spilling
+    let thr = |rng: &mut Rng, n: usize| -> usize {
+        match rng.below(6) {
+            0 => 0,
+            1 => 1,
+            2 => 2 + rng.below(30),
+            3 => (n / 3).max(1),
+            4 => n.max(1),
+            _ => usize::MAX,
+        }
+    };
+    if chain.iter().any(|o| matches!(o, Op::Sort(_))) {
+        v.push(Cfg::SpillSort { threshold: thr(rng, n), chunk: pick_chunk(rng, n).max(if n > 3000 { 1024 } else { 1 }), with_manager: rng.chance(0.85) });
+    }
+    if chain.iter().any(|o| matches!(o, Op::Agg { .. })) {
+        v.push(Cfg::SpillAgg { threshold: thr(rng, n), chunk: pick_chunk(rng, n).max(if n > 3000 { 1024 } else { 1 }), with_manager: rng.chance(0.85) });
+    }
+    v
+}
+
+fn case_hash(t: &Table, chain: &[Op], cfg: &Cfg) -> u64 {
+    hash_str(&format!("{:?}|{}|{:?}|{}", t.kinds, t.rows.len(), chain, cfg.variant()))
+        ^ t.rows.iter().take(64).fold(0u64, |a, r| a.rotate_left(5) ^ hash_str(&rkey(r)))
+}
+
+/// One random exploration case: table + chain, judged under a set of configurations.
+fn explore_case(ctx: &mut Ctx, tier: Tier, seed: u64, idx: u64, n: usize) {
+    let mut rng = Rng::new(seed, "c17.explore", idx);
+    let table = gen_table(&mut rng, n);
+    let chain = gen_chain(&mut rng, &table);
+    // trim the chain to what the reference can define sequentially
+    let r = ref_eval(&table.rows, &chain, None);
+    let chain: Vec<Op> = chain[..r.used].to_vec();
+    let nontrivial = !chain.is_empty() && n >= 2;
+    let cfgs = random_cfgs(&mut rng, tier, n, &chain);
+    if idx < 6 {
+        ctx.ev.push(Ev::Sample(json!({
+            "rows": n, "kinds": format!("{:?}", table.kinds),
+            "chain": chain.iter().map(|o| format!("{o:?}")).collect::<Vec<_>>(),
+            "configs": cfgs.iter().map(|c| format!("{c:?}")).collect::<Vec<_>>(),
+            "reference_rows": r.rows.len(),
+        })));
+    }
+    ctx.count(&format!("chains.len{}", chain.len()), 1);
+    for o in &chain {
+        ctx.count(&format!("ops.{}", o.name()), 1);
+    }
+    for cfg in cfgs {
+        if nontrivial {
+            ctx.ev.push(Ev::Nontrivial(case_hash(&table, &chain, &cfg)));
+        }
+        check_case(ctx, Case { table: table.clone(), chain: chain.clone(), cfg });
+    }
+}
+
+/// Deterministic directed matrix: every single operator variant and every ordered pair of operator
+/// kinds on fixed tables under every configuration class. Runs on every invocation so that the set
+/// of known signatures is closed by construction.
+fn directed_cases(tier: Tier) -> Vec<Case> {
+    let mut out = Vec::new();
+    let reps = tier.pick(2, 10);
+    let mk_tables = || -> Vec<Table> {
+        let mut v = Vec::new();
+        for (n, tag) in [(0usize, 0u64), (1, 1), (24, 2), (2100, 3)] {
+            let mut rng = Rng::new(0xC17, "c17.directed.table", tag);
+            v.push(gen_table_with(&mut rng, n, &[Kind::Int, Kind::Float, Kind::Str, Kind::Bool, Kind::Any]));
+        }
+        v
+    };
+    let tables = mk_tables();
+    let cfgs = |n: usize, chain: &[Op], all: bool| -> Vec<Cfg> {
+        if !all {
+            // pairs: one configuration per engine
+            let mut v = vec![
+                Cfg::Pull { typed: false, chunk: 2048, simple_agg: false, adaptive: false },
+                Cfg::Push { src: PushSrc::Vector, mat_distinct: false, tracked: false },
+                Cfg::Par { workers: 4, pressure: 3, chunk: 1024, chunk_src: None, merge_rows: n % 2 == 0, reps },
+                Cfg::Mixed { split: 1, chunk: 2048 },
+            ];
+            if chain.iter().any(|o| matches!(o, Op::Sort(_))) {
+                v.push(Cfg::SpillSort { threshold: 1, chunk: if n > 1000 { 1024 } else { 3 }, with_manager: true });
+            }
+            if chain.iter().any(|o| matches!(o, Op::Agg { .. })) {
+                v.push(Cfg::SpillAgg { threshold: 0, chunk: if n > 1000 { 1024 } else { 3 }, with_manager: true });
+            }
+            return v;
+        }
+        let mut v = vec![
+            Cfg::Pull { typed: false, chunk: 2048, simple_agg: false, adaptive: false },
+            Cfg::Pull { typed: false, chunk: if n > 1000 { 1024 } else { 7 }, simple_agg: true, adaptive: false },
+            Cfg::Pull { typed: false, chunk: 4096, simple_agg: false, adaptive: true },
+            Cfg::Pull { typed: true, chunk: 2048, simple_agg: false, adaptive: false },
+            Cfg::Push { src: PushSrc::Vector, mat_distinct: false, tracked: false },
+            Cfg::Push { src: PushSrc::Chunks(if n > 1000 { 1024 } else { 7 }), mat_distinct: true, tracked: true },
+            Cfg::Push { src: PushSrc::Ragged(11), mat_distinct: false, tracked: false },
+            Cfg::Par { workers: 1, pressure: 0, chunk: 2048, chunk_src: None, merge_rows: false, reps: 1 },
+            Cfg::Par { workers: 4, pressure: 3, chunk: 1024, chunk_src: None, merge_rows: true, reps },
+            Cfg::Par { workers: 16, pressure: 3, chunk: if n > 1000 { 1024 } else { 7 }, chunk_src: Some(5), merge_rows: false, reps },
+        ];
+        if chain.len() >= 2 {
+            v.push(Cfg::Mixed { split: 1, chunk: 2048 });
+            v.push(Cfg::Mixed { split: 1, chunk: if n > 1000 { 1024 } else { 7 } });
+        }
+        if chain.iter().any(|o| matches!(o, Op::Sort(_))) {
+            for t in [0usize, 1, 10, usize::MAX] {
+                v.push(Cfg::SpillSort { threshold: t, chunk: if n > 1000 { 1024 } else { 3 }, with_manager: true });
+            }
+            v.push(Cfg::SpillSort { threshold: 1, chunk: 1024, with_manager: false });
+        }
+        if chain.iter().any(|o| matches!(o, Op::Agg { .. })) {
+            for t in [0usize, 1, 10, usize::MAX] {
+                v.push(Cfg::SpillAgg { threshold: t, chunk: if n > 1000 { 1024 } else { 3 }, with_manager: true });
+            }
+            v.push(Cfg::SpillAgg { threshold: 1, chunk: 1024, with_manager: false });
+        }
+        v
+    };
+    for t in &tables {
+        let n = t.rows.len();
+        let singles = directed_ops(&t.kinds, n);
+        // every single operator variant
+        for op in &singles {
+            let chain = vec![op.clone()];
+            for cfg in cfgs(n, &chain, true) {
+                out.push(Case { table: t.clone(), chain: chain.clone(), cfg });
+            }
+        }
+        // every ordered pair of operator kinds (first variant of each kind), where the schema allows
+        let firsts = first_of_each_kind(&singles);
+        for a in &firsts {
+            for b in &firsts {
+                let Some(k2) = apply_schema(&t.kinds, a) else { continue };
+                // re-target b onto the schema after a
+                let Some(b2) = retarget(b, &k2, n) else { continue };
+                let chain = vec![a.clone(), b2];
+                if !chain_valid(&t.kinds, &chain) {
+                    continue;
+                }
+                for cfg in cfgs(n, &chain, false) {
+                    out.push(Case { table: t.clone(), chain: chain.clone(), cfg });
+                }
+            }
+        }
+    }
+    // findings that the main matrix tables hide behind other findings (their Any column), pinned by
+    // dedicated tables: distinct over one input chunk of more than 2048 distinct rows; min/max over
+    // numeric-looking strings merged from per-worker accumulators
+    {
+        let mut rng = Rng::new(0xC17, "c17.directed.table", 50);
+        let mut t = gen_table_with(&mut rng, 2100, &[Kind::Int, Kind::Str]);
+        for (i, r) in t.rows.iter_mut().enumerate() {
+            r[0] = Value::Int64(i as i64 * 3);
+        }
+        for chain in [vec![Op::Distinct(None)], vec![Op::Distinct(Some(vec![0]))]] {
+            for chunk in [2048usize, 4096] {
+                out.push(Case { table: t.clone(), chain: chain.clone(), cfg: Cfg::Pull { typed: false, chunk, simple_agg: false, adaptive: false } });
+            }
+            out.push(Case { table: t.clone(), chain: chain.clone(), cfg: Cfg::Push { src: PushSrc::Chunks(4096), mat_distinct: false, tracked: false } });
+        }
+        let mut rng = Rng::new(0xC17, "c17.directed.table", 51);
+        let t = gen_table_with(&mut rng, 60, &[Kind::NumStr, Kind::Int]);
+        for f in [AggF::Min, AggF::Max] {
+            let chain = vec![Op::Agg { group: vec![], aggs: vec![(f, Some(0))] }];
+            for cfg in [
+                Cfg::Pull { typed: false, chunk: 2048, simple_agg: true, adaptive: false },
+                Cfg::Push { src: PushSrc::Vector, mat_distinct: false, tracked: false },
+                Cfg::Par { workers: 4, pressure: 3, chunk: 7, chunk_src: None, merge_rows: false, reps },
+                Cfg::SpillAgg { threshold: 0, chunk: 7, with_manager: true },
+            ] {
+                out.push(Case { table: t.clone(), chain: chain.clone(), cfg });
+            }
+        }
+    }
+    // one huge table (beyond u16 and the default morsel size): sort / limit / filter combinations
+    {
+        let mut rng = Rng::new(0xC17, "c17.directed.table", 99);
+        let t = gen_table_with(&mut rng, 66_000, &[Kind::Int, Kind::Str]);
+        let chains: Vec<Vec<Op>> = vec![
+            vec![Op::Sort(vec![SKey { col: 0, desc: false, nulls_first: false }])],
+            vec![Op::Sort(vec![SKey { col: 0, desc: false, nulls_first: false }]), Op::Filter { col: 0, cmp: Cmp::Ge, val: Value::Int64(0) }],
+            vec![Op::Sort(vec![SKey { col: 0, desc: true, nulls_first: true }]), Op::Skip(3)],
+            vec![Op::Sort(vec![SKey { col: 1, desc: false, nulls_first: true }]), Op::Distinct(None)],
+            vec![Op::Agg { group: vec![0], aggs: vec![(AggF::Count, None), (AggF::Min, Some(1))] }],
+            vec![Op::Limit(65_900)],
+            vec![Op::Sort(vec![SKey { col: 0, desc: false, nulls_first: false }]), Op::Limit(65_900)],
+            vec![Op::Sort(vec![SKey { col: 0, desc: false, nulls_first: false }]), Op::SkipLimit(5, 65_000)],
+            vec![Op::Sort(vec![SKey { col: 0, desc: false, nulls_first: true }]), Op::Filter { col: 0, cmp: Cmp::Ge, val: Value::Int64(0) }],
+            vec![Op::Skip(65_800)],
+        ];
+        for chain in chains {
+            let r = ref_eval(&t.rows, &chain, None);
+            let chain = chain[..r.used].to_vec();
+            let mut cs = vec![
+                Cfg::Pull { typed: false, chunk: 2048, simple_agg: false, adaptive: false },
+                Cfg::Push { src: PushSrc::Vector, mat_distinct: false, tracked: false },
+                Cfg::Par { workers: 8, pressure: 0, chunk: 2048, chunk_src: if chain.len() % 2 == 0 { Some(3) } else { None }, merge_rows: chain.len() % 2 == 0, reps: tier.pick(1, 5) },
+            ];
+            if chain.iter().any(|o| matches!(o, Op::Sort(_))) {
+                cs.push(Cfg::SpillSort { threshold: 10_000, chunk: 2048, with_manager: true });
+            }
+            if chain.iter().any(|o| matches!(o, Op::Agg { .. })) {
+                cs.push(Cfg::SpillAgg { threshold: 50, chunk: 2048, with_manager: true });
+            }
+            for cfg in cs {
+                out.push(Case { table: t.clone(), chain: chain.clone(), cfg });
+            }
+        }
+    }
+    out
+}
+
+// ---------------------------------------------------------------------------------------------
+// entry
+// ---------------------------------------------------------------------------------------------
+
+pub fn run(tier: Tier, seed: u64) -> ! {
+    let mut rep = Report::new("C17", tier, seed, "exploration");
+    rep.rule = "case = (table, operator chain, execution configuration); non-trivial = table of >=2 rows and a \
+                chain of >=1 operators; distinct by hash of (column kinds, row count, first 64 rows, chain, \
+                configuration class). Tables: sizes 0,1,2,3, 1023..1025, 2047..2049, 4096/7, 16383..16385, \
+                32767..32769, 65535..65537, 1e5 (+ random small), columns of int/float/string/numeric-string/bool \
+                with duplicates and nulls plus payload columns of every value type. Chains: 1-4 of filter, project, \
+                limit, skip, skip+limit, distinct (all / on columns), sort (1-2 keys, asc/desc, nulls first/last), \
+                grouped and global count/sum/min/max/avg. Direct monitors: generate_morsels tiling grid, \
+                ParallelSource partition coverage, MorselScheduler exactly-once, ExternalSort run-size sweep, \
+                PartitionedState vs HashMap model, spill directory emptiness."
+        .into();
+    rep.assumptions = vec![
+        "Reference dialect = the pull operators' value semantics where the statement is silent (SUM of ints is an \
+         integer, SUM over no values is 0, `<>` passes NULL, NULL placement is applied before DESC reversal — the \
+         last one is shared by all four sort implementations and therefore not flagged)."
+            .into(),
+        "Filters compare a homogeneous column with a constant of the same type; sort keys are homogeneous \
+         columns without NaN/-0.0; float aggregates use dyadic values so sums are exact in any order."
+            .into(),
+        "ParallelPipeline ignores config.morsel_size (uses the pressure level), so morsel sizes are the four \
+         pressure levels: 65536, 32768, 16384, 1024."
+            .into(),
+        "No scheduler hook exists in /repo (sched.morsel.after_get_work is not compiled in); schedule variety \
+         comes from repetition (5x quick / 50x thorough) and from 8 harness threads competing for cores."
+            .into(),
+        "parallel/fold.rs needs rayon iterators; the harness has no rayon dependency, so fold.rs is not driven."
+            .into(),
+    ];
+
+    let t0 = std::time::Instant::now();
+    let mut ctx = Ctx { reduce_budget: 90, ..Default::default() };
+    // ---- pipeline cases: directed matrix + random exploration, spread over harness threads
+    enum Work {
+        Direct(usize),
+        Directed(Case),
+        Explore(u64, usize),
+    }
+    // direct monitors first (the long ones overlap with the pipeline cases)
+    let mut work: Vec<Work> = (0..7).map(Work::Direct).collect();
+    let directed = directed_cases(tier);
+    let n_directed = directed.len();
+    work.extend(directed.into_iter().map(Work::Directed));
+    {
+        let mut rng = Rng::new(seed, "c17.plan", 0);
+        let sizes = table_sizes(tier);
+        let mut idx = 0u64;
+        // boundary sizes: each once (quick) / 3 times (thorough)
+        for _ in 0..tier.pick(1, 3) {
+            for &n in &sizes {
+                work.push(Work::Explore(idx, n));
+                idx += 1;
+            }
+        }
+        // morsel +-1 for the critical-pressure morsel and chunk +-1 once more with other chains
+        for &n in &[1023usize, 1025, 2047, 2049] {
+            work.push(Work::Explore(idx, n));
+            idx += 1;
+        }
+        // random small / medium
+        for _ in 0..tier.pick(260, 1300) {
+            let n = match rng.below(10) {
+                0 => rng.below(4),
+                1..=5 => 2 + rng.below(40),
+                6..=7 => 40 + rng.below(400),
+                8 => 2000 + rng.below(200),
+                _ => 1000 + rng.below(9000),
+            };
+            work.push(Work::Explore(idx, n));
+            idx += 1;
+        }
+    }
+    let n_threads = 8usize;
+    let work = std::sync::Arc::new(work);
+    let next = std::sync::Arc::new(std::sync::atomic::AtomicUsize::new(0));
+    let mut per_item: Vec<Option<Vec<Ev>>> = (0..work.len()).map(|_| None).collect();
+    let results = std::sync::Mutex::new(Vec::<(usize, Vec<Ev>)>::new());
+    std::thread::scope(|s| {
+        for _ in 0..n_threads {
+            let work = work.clone();
+            let next = next.clone();
+            let results = &results;
+            s.spawn(move || {
+                let mut ctx = Ctx { reduce_budget: 700, ..Default::default() };
+                loop {
+                    let i = next.fetch_add(1, std::sync::atomic::Ordering::Relaxed);
+                    if i >= work.len() {
+                        break;
+                    }
+                    let t_item = std::time::Instant::now();
+                    let r = catch(|| match &work[i] {
+                        Work::Direct(k) => match k {
+                            0 => direct::morsel_grid(&mut ctx, tier, seed),
+                            1 => direct::source_partitions(&mut ctx, tier, seed),
+                            2 => direct::scheduler_once(&mut ctx, tier, seed),
+                            3 => direct::external_sort(&mut ctx, tier, seed),
+                            4 => direct::partitioned_state(&mut ctx, tier, seed),
+                            5 => direct::spill_lifecycle(&mut ctx, tier, seed),
+                            _ => direct::merge_units(&mut ctx, tier, seed),
+                        },
+                        Work::Directed(c) => {
+                            if c.table.rows.len() >= 2 {
+                                ctx.ev.push(Ev::Nontrivial(case_hash(&c.table, &c.chain, &c.cfg)));
+                            }
+                            ctx.count("directed.cases", 1);
+                            check_case(&mut ctx, c.clone())
+                        }
+                        Work::Explore(idx, n) => explore_case(&mut ctx, tier, seed, *idx, *n),
+                    });
+                    if let Err(p) = r {
+                        ctx.ev.push(Ev::Inconclusive(format!("harness panic at {}: {}", p.at, p.msg)));
+                    }
+                    let ms = t_item.elapsed().as_millis() as u64;
+                    match &work[i] {
+                        Work::Direct(k) => ctx.count(&format!("time_ms.direct{k}"), ms),
+                        Work::Directed(c) => ctx.count(&format!("time_ms.directed.rows{}", c.table.rows.len()), ms),
+                        Work::Explore(_, n) => ctx.count(if *n > 20_000 { "time_ms.explore.big" } else { "time_ms.explore.small" }, ms),
+                    }
+                    let ev = std::mem::take(&mut ctx.ev);
+                    results.lock().unwrap().push((i, ev));
+                }
+            });
+        }
+    });
+    for (i, ev) in results.into_inner().unwrap() {
+        per_item[i] = Some(ev);
+    }
+    for ev in per_item.into_iter().flatten() {
+        ctx.ev.extend(ev);
+    }
+
+    // ---- merge events into the report
+    for e in ctx.ev {
+        match e {
+            Ev::Eval(n) => rep.evals(n),
+            Ev::Nontrivial(h) => rep.nontrivial(h),
+            Ev::Count(k, n) => rep.count(&k, n),
+            Ev::Dev(sig, d) => rep.deviation(&sig, d),
+            Ev::Sample(j) => rep.sample(j),
+            Ev::Inconclusive(w) => rep.inconclusive(&w),
+        }
+    }
+    rep.count("directed.matrix_cases", n_directed as u64);
+    rep.extra.insert("wall_pipeline_s".into(), json!(t0.elapsed().as_secs_f64()));
+    rep.finish()
 }
